@@ -424,18 +424,33 @@ theorem fieldNames_norm (segs : List Seg) : ∀ acc, fieldNames (norm acc segs) 
     | lit a => simp [norm, fieldNames, ih]
     | field nm cv sp => cases acc <;> simp [norm, fieldNames, ih]
 
+theorem plainSpecs_norm (segs : List Seg) (hw : allWf segs) : ∀ acc, plainSpecs (norm acc segs) = true := by
+  induction segs with
+  | nil => intro acc; cases acc <;> simp [norm, plainSpecs]
+  | cons x rest ih =>
+    have hrest : allWf rest := fun y hy => hw y (List.mem_cons_of_mem _ hy)
+    intro acc
+    cases x with
+    | lit a => simpa [norm] using ih hrest (acc ++ a)
+    | field nm cv sp =>
+      have hx := hw (.field nm cv sp) (List.mem_cons_self ..)
+      simp only [Seg.wf, Bool.and_eq_true] at hx
+      have := ih hrest []
+      unfold plainSpecs at this ⊢
+      cases acc <;> simp [norm, hx.2, this]
+
 /-- the whole pipeline on a written template -/
 theorem renderChars_unparse (ev : String → Outcome) (segs : List Seg) (hw : allWf segs) (hn : namesNonEmpty segs) :
     renderChars ev (unparse segs) =
       match pieces ev segs with
       | .ok t => .ok ⟨logPrefix ++ String.ofList t ++ logSuffix, fieldNames segs⟩
       | .error e => .error e := by
-  unfold renderChars renderParsed
+  unfold renderChars
   rw [parse_unparse segs hw]
-  simp only
+  simp only [normalise, plainSpecs_norm segs hw [], if_true]
+  unfold renderParsed
   have h1 := renderFlat_norm ev segs [] (some 0)
   have h2 := renderFlat_pieces ev segs hn (some 0) (Or.inl rfl)
-  unfold normalise
   unfold renderFlat at h1 h2
   cases hr : renderSegs ev (some 0) (norm [] segs) with
   | error e =>
